@@ -132,6 +132,10 @@ func runScenarios(tier string, noBlocked bool) []*Scenario {
 		if p.Name == "stopforce" || p.Name == "stopforce2" {
 			scs = append(scs, buildScenarios([]*Program{p}, []stepAlt{altsBasic[0], altsMore[0], altsMore[1]}, 40)...)
 		}
+		// one-of over independent steps / over objects of the data model itself
+		if p.Name == "oneofsteps" || p.Name == "oneofstage" || p.Name == "oneofinput" {
+			scs = append(scs, buildScenarios([]*Program{p}, []stepAlt{altsBasic[0], altsBasic[1], altsBasic[2], {"slow", env.StepScript{RunMS: 25}}}, 70)...)
+		}
 	}
 	scs = append(scs, hangScenarios()...)
 	var out []*Scenario
